@@ -22,7 +22,8 @@ for pid in ALL:
         evidence_file="evidence/%s.json" % pid,
         replay_cmd_template="./check %s --replay {path}" % pid,
         engine="pyvc",
-        level_claimed=dict(category=P["level"], text=P["text"], design_ref=P.get("design_ref", "DESIGN.md section 4, " + pid)),
+        level_claimed=dict(category=P["level"], text=P["text"] + (SCALE_NOTE if pid in SCALE_PROPS else ""),
+                           design_ref=P.get("design_ref", "DESIGN.md section 4, " + pid)),
         level_note=P["note"],
         technique=P["technique"]))
 na = [dict(property_id=pid, reason=props.NOT_APPLICABLE.get(pid, "not yet under contract in this round; see DESIGN.md section 4"))
